@@ -61,6 +61,12 @@ CHECKS = {
         "Trusted: bytes.replace, slicing, re.sub.",
         "DESIGN.md 3/C15",
     ),
+    "C16": (
+        "abstract interpretation relating node spans to the raw text handed to the caret stripper (Fourier-Motzkin), DFA membership of every encoded-command switch spelling in L(ENC_RE), path table of strip_carets' loop body compared case by case with the cmd.exe rules, statement-order and loop-shape checks of the encoded-argument handling and the parenthesis scan",
+        "Decides: span length == length of the de-escaped raw text on every path of both shell decoders (needs the balance scan to stop); caret label iff changed; all -e..-encodedcommand / -ec spellings in - and / style with quotes, carets and value-less switches are recognised and near misses are not; base64 then UTF-16, switch replaced by -Command; the caret state machine's seven cases and the trailing byte follow the statement's rules. Conformance of those rules to a real cmd.exe and the look-back delimiting heuristics are not decided.",
+        "Trusted: binascii, utf-16 codec, bytes slicing. One recorded known finding (no-context branch of find_powershell_strings, pinned by the test-suite).",
+        "DESIGN.md 3/C16",
+    ),
     "C17": (
         "guard truth tables with integer theory (boundary test, MixedCase per-byte test), find-advance loop template, constructor-argument provenance through Node.__init__'s signature",
         "Decides the whole mechanism of keyword.find_all / find_keywords / is_mixed_case: the boundary formula equals the statement's, both search operands are lower-cased, the search starts at 0 and advances by len(keyword) on every path, empty keywords are rejected, type/value/span roles and the MixedCase formula are the documented ones.",
